@@ -44,6 +44,7 @@ def run(ctx):
     r11_equality(ctx)
     r12_header_names(ctx)
     r13_forwarding_getattr(ctx)
+    r14_empty_views(ctx)
 
 
 def r1_complete(ctx, dense, sparse):
@@ -429,6 +430,33 @@ def r13_forwarding_getattr(ctx, rule="C13.R13"):
     ctx.floor(rule, "forwarding __getattr__ methods", n, 2)
 
 
+def r14_empty_views(ctx):
+    from ..util import all_guards
+    ctx.rule("C13.R14", "iteration agrees with length for degenerate rows: in the row classes a local built from the row's own storage (sorted(...)/list(...) of a self "
+                        "field) is subscripted with a constant position only after it was tested for emptiness (SparseDense with no stored value is n defaults, not an IndexError)")
+    n = 0
+    for c in ctx.model.subclasses(ctx.model.cls(PRIM, "Dense_")) + ctx.model.subclasses(ctx.model.cls(PRIM, "Sparse_")):
+        if c.rel != ROWS:
+            continue
+        for name, fn in sorted(c.methods.items()):
+            locs = {t.id: x for x in walk_shallow(fn) if isinstance(x, ast.Assign) and isinstance(x.value, ast.Call) and call_name(x.value) in ("sorted", "list", "tuple")
+                    and any(is_self_attr(a) for a in ast.walk(x.value)) for t in x.targets if isinstance(t, ast.Name)}
+            if not locs:
+                continue
+            for sub in [x for x in walk_shallow(fn) if isinstance(x, ast.Subscript) and isinstance(x.value, ast.Name) and x.value.id in locs and isinstance(x.slice, (ast.Constant, ast.UnaryOp))
+                        and unparse(x.slice) in ("0", "-1")]:
+                n += 1
+                L = sub.value.id
+                st = enclosing_stmt(sub)
+                # an earlier `if not L: ...; return` in the same body (early exit) or an enclosing positive guard on L
+                early = [x for x in fn.body if isinstance(x, ast.If) and unparse(x.test) in (f"not {L}", f"len({L}) == 0", f"{L} == []") and x.lineno < st.lineno
+                         and any(isinstance(r, (ast.Return, ast.Raise)) for r in ast.walk(x))]
+                guarded = any(pol and unparse(t) in (L, f"len({L}) > 0", f"len({L})") for t, pol in all_guards(sub, fn))
+                ctx.touch(ROWS, f"{c.name}.{name}")
+                ctx.ob("C13.R14", ROWS, f"{c.name}.{name}", sub, f"`{L}` is known to be non-empty where its first / last element is taken", bool(early) or guarded)
+    ctx.floor("C13.R14", "constant-position reads of storage snapshots in row classes", n, 1)
+
+
 def r11_equality(ctx):
     ctx.rule("C13.R11", "a row view equals the eager list/dict it describes whatever its cells hold: Dense_.__eq__ / Sparse_.__eq__ compare list(...) / dict(...) of the "
                         "row (cells are compared with ==, never hashed -- a list- or dict-valued cell must not make a row unequal to itself)")
@@ -462,6 +490,7 @@ def _empty_marker(tree):
 
 
 CONTROLS = [
+    ("SparseDense iterates an empty snapshot", ROWS, M.delete_stmt("SparseDense.__iter__", lambda st: isinstance(st, ast.If) and ast.unparse(st.test) == "not sort"), "C13.R14"),
     ("forwarding __getattr__ without a base case", PRIM, M.delete_stmt("Dense_.__getattr__", M.text_has("if attr == '_row': raise AttributeError(attr)")), "C13.R13"),
     ("EncodeDense indexes its encoders with the raw key", ROWS, M.delete_stmt("EncodeDense.__getitem__", M.text_has("key = key if key.__class__ is int else self._row.headers[key]")), "C13.R12"),
     ("encoders resolved by enumerating the header map", ROWS, M.replace_expr("EncodeRows.filter", "[enc.get(names.get(i), enc.get(i, lambda x: x)) for i in range(len(first))]", "[enc.get(h, enc.get(i, lambda x: x)) for i, h in enumerate(first.headers)]"), "C13.R12"),
